@@ -160,6 +160,9 @@ def check(ctx: Ctx) -> None:
     else:
         ctx.violation("R12.2", "_residual:order", FIT, res.node, "_residual must call _from_lmfit(params, identifiers) before circuit.get_impedances(f)")
 
+    from .c14 import copy_carries_flags
+    copy_carries_flags(ctx, model, "R12.2")
+
     # ---------------- R12.3 ---------------------------------------------------------
     cv = model.fi(FIT, "_convert_intermediate_result")
     ctor = [c for c in calls_in(cv.node) if dotted(c.func) == "FitResult"]
